@@ -127,7 +127,7 @@ def _merge_term(c, a, b):
             return a
     except Exception:
         pass
-    return z3.If(c, a, b)
+    return ite_val(c, a, b)
 
 
 def _split_common(s1, s2):
